@@ -7,15 +7,18 @@
 
   `C01.lean` proves the handler law  reserves' + outflow = reserves + inflow  per message kind.  Here
   the laws are composed with the message-execution semantics of `Model/System.lean` into an invariant
-  of `step`.  The single-asset deposit (first leg + self-swap + reply + second leg) is excluded from
-  this theorem: its transient excess is settled by the reply's exact balance checks and is covered by
-  the custody monitors (`mon_pm_custody`, `mon_pm_excess`) and the C14 twin, not by this proof.
+  of `step`.  The `_partial` theorems exclude the single-asset deposit (first leg + self-swap + reply +
+  second leg); `single_tx` unrolls that message tree (the reply's exact balance checks pin the balances
+  after the self-swap, and the second leg deposits exactly the simulated = actual proceeds), and
+  `pm_inv_step` / `pm_custody_reachable` at the end of the file cover every transaction.
 -/
 import MantraDex.Model.System
 import MantraDex.Proofs.NumLemmas
 import MantraDex.Properties.C01
 import MantraDex.Proofs.PmSysLemmas
 import MantraDex.Proofs.SysLemmasPm
+import MantraDex.Proofs.SysLemmasSingle
+import MantraDex.Properties.C14
 
 set_option linter.unusedSimpArgs false
 set_option linter.unusedVariables false
@@ -186,5 +189,235 @@ theorem pm_inv_init (w : World) (hp : w.pm.pools = []) (hb : w.pm.buffer = none)
     rw [hp]
     exact ⟨List.nodup_nil, fun p hp => by cases hp⟩
 
+
+/-! ### the full statement: single-asset deposits included
+
+  A single-asset deposit runs as: first leg (records the expected balances, the half to swap and the
+  simulated proceeds in the buffer) → self-call `Swap` of ⌊a/2⌋ with reply-on-success → reply (checks both
+  balances exactly, clears the buffer) → self-call `ProvideLiquidity` with the half and the simulated
+  proceeds.  The proceeds of the self-swap are sent to the pool manager itself; simulation = swap
+  (`C12.simulation_eq_swap`, the pool is untouched between the quote and the swap) makes the second
+  leg deposit exactly what the swap produced, so the excess never goes negative. -/
+
+/-- a deposit without funds is refused -/
+theorem no_funds_tx {n : Nat} {w0 w' : World} {sender c : Addr} {ls ss : Option Nat} {rc : Option Addr}
+    {pid : String} {u : Option Nat} {l : Option String}
+    (hr : execMsg (n + 1) w0 sender (.wasmExec c (.pm (.provideLiquidity ls ss rc pid u l)) []) = .ok w') :
+    False := by
+  obtain ⟨w1, w2, resp, hw1, hce, hsubs⟩ := wasm_inv hr
+  simp only [callExecute] at hce
+  split at hce
+  · cases hce
+  obtain ⟨⟨s2, r2⟩, hpe, hce⟩ := bind_ok.mp hce
+  simp only [pmExecute] at hpe
+  obtain ⟨deps, hagg, hne⟩ := pl_agg hpe
+  rw [aggregateCoins_nil] at hagg
+  cases hagg
+  cases hne
+
+/-- a single-asset deposit sent by an external account: first leg, self-swap, reply, second leg -/
+theorem single_tx {w0 w' : World} {sender c : Addr} {coin : Coin} {ls ss : Option Nat} {rc : Option Addr}
+    {pid : String} {u : Option Nat} {l : Option String} (hs : sender ≠ PM) (hfee : FeeSmall w0) (h : PmInv w0)
+    (hr : execMsg FUEL w0 sender (.wasmExec c (.pm (.provideLiquidity ls ss rc pid u l)) [coin]) = .ok w') :
+    PmInv w' := by
+  rw [show FUEL = 63 + 1 from rfl] at hr
+  obtain ⟨w1, w2, resp, hw1, hce, hsubs⟩ := wasm_inv hr
+  simp only [callExecute] at hce
+  split at hce
+  · cases hce
+  rename_i hc
+  have hc : c = PM := by simpa using hc
+  subst hc
+  obtain ⟨⟨s2, r2⟩, hpe, hce⟩ := bind_ok.mp hce
+  simp only [pure_ok, Prod.mk.injEq] at hce
+  obtain ⟨hw2, hresp⟩ := hce
+  subst hw2
+  subst hresp
+  -- the funds
+  have hw1' : w1.pm = w0.pm ∧ w1.tfFees = w0.tfFees ∧
+      ∀ d, w1.bank.bal PM d = w0.bank.bal PM d + C01.coinsOf [coin] d := by
+    split at hw1
+    · rename_i hf
+      cases hf
+    · obtain ⟨b, hb, hw1⟩ := bind_ok.mp hw1
+      simp only [pure_ok] at hw1; subst hw1
+      exact ⟨rfl, rfl, fun d => send_to hs hb d⟩
+  obtain ⟨e1, e2, e3⟩ := hw1'
+  -- the first leg
+  simp only [pmExecute] at hpe
+  obtain ⟨pool, -, -, hp, -⟩ := pl_single (agg_single coin) hpe
+  obtain ⟨buf, sim, ask, hs2, hsim, hoh, hea, heo, hexa, -, -, -, -, -, -, hmsgs⟩ := C14.first_leg_shape hp hpe
+  rw [hmsgs] at hsubs
+  obtain ⟨m, w3, w4, resp4, hm, hswap, hreply, hsubs4⟩ := subs_single_success rfl hsubs
+  obtain rfl : m = 62 := by omega
+  have hpools2 : s2.pools = w0.pm.pools := by rw [hs2]; show w1.pm.pools = _; rw [e1]
+  have hwf2 : C01.WF s2 := wf_of_pools hpools2 h.wf
+  -- the nested swap
+  have hswap' : execMsg (61 + 1) { w1 with pm := s2 } PM
+      (.wasmExec PM (.pm (.swap ask none ss none pid)) [buf.offerHalf]) = .ok w3 := hswap
+  obtain ⟨w2a, s3, r3, a1, a2, a3, hsw, hsubs3⟩ := self_call hswap'
+  have a1' : w2a.pm = s2 := a1
+  simp only [pmExecute] at hsw
+  rw [a1'] at hsw
+  have hcons3 := C01.swap_conserves hwf2 hsw
+  obtain ⟨offer, sr, hoff, hps, hmsgs3⟩ := C04.swapHandler_messages hsw
+  have hoff' : offer = ⟨coin.denom, coin.amount / 2⟩ := by
+    rw [hoh] at hoff
+    simpa using hoff.symm
+  subst hoff'
+  have hne : coin.denom ≠ ask := by
+    have := performSwap_denoms_ne hps
+    exact this
+  obtain ⟨pool', c', oi, ai, x, y, hp', hc', -, -, -, -, -, -, -, -, hret, hpf, hbf, -, -⟩ :=
+    C04.performSwap_ok hps
+  have hgp : s2.getPool pid = w1.pm.getPool pid := by rw [hs2]; rfl
+  rw [hgp, hp] at hp'
+  cases hp'
+  rw [hsim] at hc'
+  cases hc'
+  obtain ⟨-, ret, pf, bf, hret', hpf', hbf', hres3⟩ := C01.performSwap_reserves hwf2.1 hps
+  rw [hret] at hret'
+  rw [hpf] at hpf'
+  rw [hbf] at hbf'
+  cases hret'
+  cases hpf'
+  cases hbf'
+  have hok3 : ∀ sm ∈ r3.msgs, SubOk sm := by
+    rw [hmsgs3]
+    apply mk_ok
+    exact noPm_append (noPm_append (noPm_opt trivial) (noPm_opt trivial)) (noPm_opt trivial)
+  have paid3 := pm_subs _ _ _ _ hok3 hsubs3
+  have hpm3 : w3.pm = s3 := paid3.pm
+  have hwf3 : C01.WF s3 := performSwap_wf hwf2 hps
+  have hbuf3 : w3.pm.buffer = some buf := by
+    rw [hpm3, performSwap_buffer hps, hs2]
+  -- the reply
+  simp only [callReply, beq_self_eq_true, if_true] at hreply
+  obtain ⟨⟨s4, r4⟩, hrep, hreply⟩ := bind_ok.mp hreply
+  simp only [pure_ok, Prod.mk.injEq] at hreply
+  obtain ⟨rfl, rfl⟩ := hreply
+  obtain ⟨hchk1, hchk2, hs4, hmsgs4⟩ := C14.reply_shape hbuf3 hrep
+  rw [heo] at hchk1
+  rw [hexa] at hchk2
+  -- the second leg
+  rw [hmsgs4] at hsubs4
+  obtain ⟨m, hm, hsecond⟩ := subs_single_never rfl hsubs4
+  obtain rfl : m = 61 := by omega
+  have hsecond' : execMsg (60 + 1) { w3 with pm := s4 } PM
+      (.wasmExec PM (.pm (.provideLiquidity buf.liqSlip buf.swapSlip (some buf.receiver) buf.poolId
+        buf.unlocking buf.lockId)) [buf.offerHalf, buf.expectedAsk]) = .ok w' := hsecond
+  obtain ⟨w4a, s5, r5, b1, b2, b3, hpl, hsubs5⟩ := self_call hsecond'
+  have b1' : w4a.pm = s4 := b1
+  have hpools4 : w4a.pm.pools = s3.pools := by rw [b1', hs4, hpm3]
+  have hcfg4 : w4a.pm.config = w0.pm.config := by
+    rw [b1', hs4]
+    show w3.pm.config = _
+    rw [hpm3, C04.performSwap_config hps, hs2]
+    show w1.pm.config = _
+    rw [e1]
+  have htf4 : w4a.tfFees = w0.tfFees := by
+    rw [b2]
+    show w3.tfFees = _
+    rw [paid3.tf]
+    show w2a.tfFees = _
+    rw [a2]
+    exact e2
+  have hfunds2 : (([buf.offerHalf, buf.expectedAsk] : List Coin).map (·.denom)).Nodup := by
+    rw [hoh, hea]
+    simp [hne]
+  have out := pmExecute_sys (env := w4a.pmEnv) (m := .provideLiquidity buf.liqSlip buf.swapSlip (some buf.receiver)
+      buf.poolId buf.unlocking buf.lockId) rfl (wf_of_pools hpools4 hwf3) (by rw [b1', hs4])
+    (by show (w4a.tfFees.map (·.denom)).Nodup; rw [htf4]; exact h.tfNodup)
+    (by show ∀ f ∈ w4a.tfFees, f.amount ≤ U128_MAX / 2; rw [htf4]; exact h.tfSmall)
+    (by rw [hcfg4]; exact hfee) hfunds2 (Nat.le_refl 2) hpl
+  have paid5 := pm_subs _ _ _ _ out.msgs hsubs5
+  have hpm5 : w'.pm = s5 := paid5.pm
+  have htf5 : w'.tfFees = w0.tfFees := paid5.tf.trans htf4
+  refine ⟨?_, by rw [hpm5]; exact out.wf, by rw [hpm5]; exact out.buf, by rw [htf5]; exact h.tfNodup,
+    by rw [htf5]; exact h.tfSmall⟩
+  -- custody
+  intro d hd
+  have h0 := h.custody d hd
+  have h1 := e3 d
+  have hR2 : C01.reserves s2 d = C01.reserves w0.pm d := reserves_of_pools hpools2 d
+  have h3 := hres3 d
+  have h3c := hcons3 d
+  have h3p := paid3.bal d
+  have h2a := a3 d
+  have hR4 : C01.reserves w4a.pm d = C01.reserves s3 d := reserves_of_pools hpools4 d
+  have h5 := out.cons d hd
+  have h5p := paid5.bal d
+  have h4a := b3 d
+  rw [hpm5]
+  rw [hoh, hea] at h5
+  rw [hoh] at h3c
+  rw [hR2] at h3 h3c
+  rw [hR4] at h5
+  rw [C01.coinsOf_singleton] at h1 h3c
+  rw [C01.coinsOf_cons, C01.coinsOf_singleton] at h5
+  dsimp only [World.pmEnv] at h3c h3p h5 h5p h2a h4a hchk1 hchk2
+  by_cases hcd : coin.denom = d
+  · subst hcd
+    have hx : (ask == coin.denom) = false := by simpa using fun e => hne e.symm
+    simp only [C01.amt, hx, beq_self_eq_true, if_true, if_false, Bool.false_eq_true] at h1 h3 h3c h5
+    omega
+  · have hx : (coin.denom == d) = false := by simpa using hcd
+    by_cases had : ask = d
+    · subst had
+      simp only [C01.amt, hx, beq_self_eq_true, if_true, if_false, Bool.false_eq_true] at h1 h3 h3c h5
+      omega
+    · have hy : (ask == d) = false := by simpa using had
+      simp only [C01.amt, hx, hy, if_false, Bool.false_eq_true] at h1 h3 h3c h5
+      omega
+
+/-- one transaction of ANY kind (committed or rejected, with or without an injected fault) preserves the invariant -/
+theorem pm_inv_step (w : World) (tx : Tx) (k : Option Nat) (hext : External tx)
+    (hfee : FeeSmall w) (h : PmInv w) :
+    PmInv (step w tx k) := by
+  by_cases hns : NotSingleAsset tx
+  · exact pm_inv_step_partial w tx k hext hns hfee h
+  · unfold step
+    cases hr : runTx w tx k with
+    | error e => exact h
+    | ok w' =>
+      show PmInv w'
+      have h0 : PmInv { w with bank := { w.bank with calls := 0, failAt := k } } :=
+        ⟨h.custody, h.wf, h.noBuffer, h.tfNodup, h.tfSmall⟩
+      have hfee0 : FeeSmall { w with bank := { w.bank with calls := 0, failAt := k } } := hfee
+      cases tx with
+      | exec sender c msg funds =>
+        obtain ⟨hsc, hfunds⟩ := hext
+        have hs := not_contract_ne_pm hsc
+        simp only [runTx] at hr
+        cases msg with
+        | pm m =>
+          cases m with
+          | provideLiquidity ls ss rc pid u l =>
+            match funds, hns, hr with
+            | [], _, hr => exact (no_funds_tx (n := 63) hr).elim
+            | [coin], _, hr => exact single_tx hs hfee0 h0 hr
+            | _ :: _ :: _, hns, _ => exact absurd (by simp [NotSingleAsset]) hns
+          | _ => exact absurd trivial hns
+        | _ => exact absurd trivial hns
+      | send frm to coins => exact absurd trivial hns
+      | advance ns => exact absurd trivial hns
+
+/-- custody in every reachable state, for every history of account-signed transactions -/
+theorem pm_custody_reachable (w0 : World) (h0 : PmInv w0) (txs : List (Tx × Option Nat))
+    (hext : ∀ t ∈ txs, External t.1)
+    (hfee : ∀ n, FeeSmall ((txs.take n).foldl (fun w t => step w t.1 t.2) w0)) :
+    PmCustody (txs.foldl (fun w t => step w t.1 t.2) w0) := by
+  suffices hinv : PmInv (txs.foldl (fun w t => step w t.1 t.2) w0) from hinv.custody
+  induction txs generalizing w0 with
+  | nil => exact h0
+  | cons t rest ih =>
+    rw [List.foldl_cons]
+    apply ih
+    · exact pm_inv_step w0 t.1 t.2 (hext t (List.mem_cons_self ..)) (hfee 0) h0
+    · exact fun t' ht' => hext t' (List.mem_cons_of_mem _ ht')
+    · intro n
+      have := hfee (n + 1)
+      rw [List.take_succ_cons, List.foldl_cons] at this
+      exact this
 
 end MantraDex.C01Sys
